@@ -32,6 +32,7 @@ type rbScn struct {
 	Query   [][2]string `json:"query"`
 	Body    [][2]string `json:"body"`
 	MsgKind string      `json:"msgkind"`
+	NonConf string      `json:"nonconf"` // chain: the path-bound field does not fit the variable's pattern
 }
 
 type rbMsg struct {
@@ -322,6 +323,18 @@ func init() {
 				setStr(m, "parent", "shelves/"+multiOf(scn.PV[0]))
 			case "PostPut":
 				setStr(m, "name", strTok[scn.PV[0]])
+			}
+			switch scn.NonConf + "/" + scn.Rule {
+			case "extra-aligned/Unary":
+				setStr(m, "parent", "shelves/"+multiOf(scn.PV[0])+"/things") // the surplus part equals the literal that follows
+			case "extra-other/Unary":
+				setStr(m, "parent", "shelves/"+multiOf(scn.PV[0])+"/zzz")
+			case "too-few/Unary":
+				setStr(m, "parent", "shelves")
+			case "extra-aligned/Get", "extra-other/Get":
+				setStr(m, "name", "shelves/"+multiOf(scn.PV[0])+"/things/"+multiOf(scn.PV[1])+"/more")
+			case "too-few/Get":
+				setStr(m, "name", "shelves/"+multiOf(scn.PV[0])+"/things")
 			}
 			if scn.Rule == "PostPut" {
 				// only the primary binding is used toward a REST backend
